@@ -1,0 +1,94 @@
+//go:build verif
+
+package aggregator
+
+import (
+	"fmt"
+	"sort"
+	"strings"
+)
+
+// VerifDump returns a canonical (sorted) text dump of the in-memory aggregation state.
+// Only compiled with the `verif` build tag; used by the deterministic simulator in /verif
+// to compare the in-memory oracle state before/after a call and across replicas.
+func (agc *AggregatorContext) VerifDump() string {
+	if agc == nil {
+		return "<nil>"
+	}
+	var b strings.Builder
+	vals := make([]string, 0, len(agc.validatorsPower))
+	for v, p := range agc.validatorsPower {
+		vals = append(vals, fmt.Sprintf("%s=%s", v, p))
+	}
+	sort.Strings(vals)
+	fmt.Fprintf(&b, "validators[%s] total=%s\n", strings.Join(vals, ","), agc.totalPower)
+	if agc.params != nil {
+		fmt.Fprintf(&b, "params maxNonce=%d maxDetID=%d feeders=%d tokens=%d maxSize=%d\n", agc.params.MaxNonce, agc.params.MaxDetId, len(agc.params.TokenFeeders), len(agc.params.Tokens), agc.params.MaxSizePrices)
+	}
+	ids := make([]uint64, 0, len(agc.rounds))
+	for id := range agc.rounds {
+		ids = append(ids, id)
+	}
+	sort.Slice(ids, func(i, j int) bool { return ids[i] < ids[j] })
+	for _, id := range ids {
+		r := agc.rounds[id]
+		fmt.Fprintf(&b, "round feeder=%d based=%d next=%d status=%d\n", id, r.basedBlock, r.nextRoundID, r.status)
+	}
+	ids = ids[:0]
+	for id := range agc.aggregators {
+		ids = append(ids, id)
+	}
+	sort.Slice(ids, func(i, j int) bool { return ids[i] < ids[j] })
+	for _, id := range ids {
+		w := agc.aggregators[id]
+		fmt.Fprintf(&b, "worker feeder=%d sealed=%v price=%s\n", id, w.sealed, w.price)
+		if w.f != nil {
+			ks := make([]string, 0)
+			for k, s := range w.f.validatorNonce {
+				ks = append(ks, fmt.Sprintf("%s:%v", k, s))
+			}
+			sort.Strings(ks)
+			fmt.Fprintf(&b, "  filter nonces %s\n", strings.Join(ks, " "))
+			ks = ks[:0]
+			for k, s := range w.f.validatorSource {
+				ks = append(ks, fmt.Sprintf("%s:%v", k, s))
+			}
+			sort.Strings(ks)
+			fmt.Fprintf(&b, "  filter sources %s\n", strings.Join(ks, " "))
+		}
+		if w.c != nil {
+			sids := make([]uint64, 0)
+			for sid := range w.c.deterministicSource {
+				sids = append(sids, sid)
+			}
+			sort.Slice(sids, func(i, j int) bool { return sids[i] < sids[j] })
+			for _, sid := range sids {
+				for _, rp := range w.c.deterministicSource[sid].roundPricesList {
+					ps := make([]string, 0)
+					for _, pp := range rp.prices {
+						ps = append(ps, fmt.Sprintf("%s@%s", pp.price, pp.power))
+					}
+					fmt.Fprintf(&b, "  calc source=%d det=%s price=%v [%s]\n", sid, rp.detID, rp.price, strings.Join(ps, ","))
+				}
+			}
+		}
+		if w.a != nil {
+			fmt.Fprintf(&b, "  agg final=%v reportPower=%s total=%s\n", w.a.finalPrice, w.a.reportPower, w.a.totalPower)
+			ds := make([]string, 0)
+			for sid, d := range w.a.dsPrices {
+				ds = append(ds, fmt.Sprintf("%d=%s", sid, d))
+			}
+			sort.Strings(ds)
+			fmt.Fprintf(&b, "  agg ds %s\n", strings.Join(ds, ","))
+			for _, rep := range w.a.reports {
+				ps := make([]string, 0)
+				for sid, p := range rep.prices {
+					ps = append(ps, fmt.Sprintf("%d=%v/%s", sid, p.price, p.detRoundID))
+				}
+				sort.Strings(ps)
+				fmt.Fprintf(&b, "  report %s power=%s price=%v [%s]\n", rep.validator, rep.power, rep.price, strings.Join(ps, ","))
+			}
+		}
+	}
+	return b.String()
+}
